@@ -26,3 +26,26 @@ PROPS["C18"] = dict(
     assumptions=["AddrCodec.Lawful for the string-form theorem (dec∘enc = id on 1..255-byte addresses, no '/' in address text)"],
     note="all theorems hold for any number of components of any size; typed-key theorems are about the code after fix e1943c05 (offset component must be 8 bytes)",
 )
+
+AOL_TRUSTED = [
+    "hand-written Lean model Panacea/Model/Aol.lean (+KV, Paginate) of x/aol keeper, msg server and queries, tied by the aol stream (real msg server and query server on a cache branch of a real app's deliver state)",
+    "protobuf value encoding of Owner/Topic/Writer/Record is not modelled: store values are compared after decoding with the module codec",
+    "bech32 is a parameter (AddrCodec); the real one is supplied to the driver as a finite table",
+]
+
+PROPS["C01"] = dict(
+    module="Panacea.Properties.C01",
+    obligations=[
+        "Panacea.C01.tables_disjoint", "Panacea.C01.recordKey_injective", "Panacea.C01.recInv_genesis",
+        "Panacea.C01.recInv_reachable", "Panacea.C01.addRecord_acknowledged", "Panacea.C01.acked_record_forever",
+        "Panacea.C01.offsets_dense", "Panacea.C01.record_table_append_only",
+    ],
+    streams=[dict(name="aol", quick=150, thorough=3000, thorough_seeds=3)],
+    trusted=AOL_TRUSTED,
+    assumptions=[
+        "RecInv s0 (records and total_records agree) for the start state: proved for the empty genesis and preserved by every message",
+        "no uint64 overflow of total_records during the history (B + |history| < 2^64)",
+        "a failing/panicking message leaves state unchanged (transaction atomicity: C15 / baseapp cache branch)",
+    ],
+    note="restart and genesis export/import are identities on the modelled state (C10, C08) and are not separate operations in these histories",
+)
